@@ -68,7 +68,10 @@ def main():
         # the demo may refer to its own worktree path; run it from the scratch tree
         src = open(demo).read()
         src2 = re.sub(r"/tmp/seed/C\d+[a-z]?", tree, src)
-        demo_run = os.path.join(d, "demo.py")
+        # keep the demo where its author ran it (<worktree>/seed_out/<n>/demo.py): some
+        # demos locate the repository relative to their own path
+        os.makedirs(os.path.join(tree, "seed_out", "x"), exist_ok=True)
+        demo_run = os.path.join(tree, "seed_out", "x", "demo.py")
         open(demo_run, "w").write(src2)
         rc, out = sh([PY, "-B", demo_run], cwd=tree, env=env, timeout=600)
         ran["demo_clean"] = dict(rc=rc, tail=out[-300:])
